@@ -490,7 +490,8 @@ def check(ctx):
     _check_lookups(ix, rep, m, tab)
     rep.floor("literal entries classified (with / without Stim instruction)", n_stim + n_none, 24)
     rep.extra["entries"] = {"with_stim_instruction": n_stim, "without": n_none}
-    from .c70_extra import shared
+    from .c70_extra import memos, shared
 
     shared(ctx, rep)
+    memos(ctx, rep)
     return rep
